@@ -308,12 +308,16 @@ def run_variant(v):
             return (v, 'STALE', stale, [])
         from vstatic.rule import Context, load_known, match_known
         from vstatic.model import AnalysisError
+        ctx = None
         try:
             ctx = Context(v['prop'], tier='quick', repo=tmp)
             mod = importlib.import_module('rules.' + v['prop'].lower())
             mod.run(ctx)
         except AnalysisError as e:
-            return (v, 'ANALYSIS-ERROR', str(e), [])
+            # same policy as ./check: violations established before an anchor vanished stand
+            known = load_known()
+            if ctx is None or not any(o.verdict == 'VIOLATED' and match_known(o, known) is None for o in ctx.obligations):
+                return (v, 'ANALYSIS-ERROR', str(e), [])
         except Exception as e:  # noqa
             import traceback
             return (v, 'CRASH', traceback.format_exc()[-600:], [])
